@@ -18,6 +18,7 @@ import (
 	"net/netip"
 	"os"
 	"testing"
+	"time"
 
 	"github.com/DataDog/datadog-traceroute/packets"
 	"golang.org/x/sys/unix"
@@ -96,7 +97,62 @@ func c12SourceStream(t *testing.T, rep *hx.Report, rng *hx.RNG, n int) {
 		if want.Name == "none" && installed.Name == "none" {
 			want = c12Filter{Name: "icmp"} // detaching with nothing attached is an error of the kernel call (ENOENT), not a filter question
 		}
-		if err := src.SetPacketFilter(c12SpecOf(want)); err != nil {
+		// frames that the REQUESTED filter rejects keep arriving while the filter is being changed: once
+		// SetPacketFilter has returned, none of them may come out of the Source (this is what the drop-all
+		// + drain sequence of SetBPFAndDrain is for; a frame that slips in between the drain and the new
+		// program stays queued whatever is attached later)
+		var during [][]byte
+		if want.Name != "none" && rng.Chance(1, 2) {
+			for _, f := range frames {
+				if pass, _ := c12Spec(want, f); !pass {
+					during = append(during, f)
+				}
+			}
+		}
+		stop, done := make(chan struct{}), make(chan int)
+		go func() {
+			n := 0
+			for len(during) > 0 {
+				select {
+				case <-stop:
+					done <- n
+					return
+				default:
+				}
+				if unix.Send(tx, during[n%len(during)], unix.MSG_DONTWAIT) == nil {
+					n++
+				}
+			}
+			<-stop
+			done <- n
+		}()
+		if len(during) > 0 {
+			time.Sleep(200 * time.Microsecond) // let the flood start before the call
+		}
+		err := src.SetPacketFilter(c12SpecOf(want))
+		close(stop)
+		sentDuring := <-done
+		if err == nil && len(during) > 0 {
+			rep.Hit("source:frames-arriving-during-set")
+			for k := 0; k < 64; k++ {
+				var m int
+				rerr := readRobust(src, fds[1], func() (e error) { m, e = src.Read(buf); return })
+				if rerr != nil {
+					break
+				}
+				got := append(append([]byte(nil), mac...), 0, 0)
+				got = append(got, buf[:m]...)
+				binary.BigEndian.PutUint16(got[12:], map[bool]uint16{true: 0x86dd, false: 0x0800}[m > 0 && buf[0]>>4 == 6])
+				if pass, _ := c12Spec(want, got); !pass {
+					rep.Violate(hx.Violation{Kind: "spec",
+						What:   fmt.Sprintf("after SetPacketFilter(%s) returned, the Source delivered a frame that this filter rejects: it arrived while the filter was being changed (%d frames were sent during the call) and was neither dropped nor drained", want.token(), sentDuring),
+						Sig:    map[string]string{"stream": "source", "defect": "frame-from-before-the-filter-survives"},
+						Replay: map[string]any{"requested_filter": want.token(), "previous_filter": installed.token(), "delivered_packet": hx2(buf[:m]), "frames_sent_during_the_call": sentDuring}})
+					break
+				}
+			}
+		}
+		if err != nil {
 			rep.Violate(hx.Violation{Kind: "correspondence", NoInput: true, What: "source stream: SetPacketFilter failed on the socket pair: " + err.Error(),
 				Sig: map[string]string{"stream": "source"}, Replay: map[string]any{"requested": want.token(), "previous": installed.token()}})
 			return
